@@ -329,13 +329,28 @@ Proof.
   inversion Hc; subst; cbn [is_element]; try exact IH. reflexivity.
 Qed.
 
+Lemma images2d_node_ins d d' : ins_doc d d' -> orel ins (images2d_node d) (images2d_node d').
+Proof.
+  intros H. unfold images2d_node.
+  destruct (ins_find_doc_desc (B"e57Root") d d' H eq_refl) as [|r r' Hr]; cbn [opt_case]; [constructor|].
+  apply ins_find_child; [exact Hr|reflexivity].
+Qed.
+
+Lemma images_from_document_ins d d' :
+  ins_doc d d' -> images_from_document pf64 fdiv d' = images_from_document pf64 fdiv d.
+Proof.
+  intros H. unfold images_from_document.
+  apply opt_case_ins; [apply images2d_node_ins; exact H|].
+  intros v v' Hv. apply map_res_ins; [apply ins_filter_vector_child; assumption|apply image_from_node_ins].
+Qed.
+
 Theorem extract_all_ins d d' :
   ins_doc d d' -> extract_all pf64 pf32 fdiv d' = extract_all pf64 pf32 fdiv d.
 Proof.
-  intros H. unfold extract_all, pointclouds_from_document, images_from_document.
+  intros H. unfold extract_all, pointclouds_from_document.
   rewrite (root_from_document_ins _ _ H), (extensions_from_document_ins _ _ H).
   rewrite (vec_from_document_ins (B"data3D") (pointcloud_from_node pf64 pf32) _ _ H eq_refl pointcloud_from_node_ins).
-  rewrite (vec_from_document_ins (B"images2D") (image_from_node pf64 fdiv) _ _ H eq_refl image_from_node_ins).
+  rewrite (images_from_document_ins _ _ H).
   reflexivity.
 Qed.
 
